@@ -381,25 +381,28 @@ pub struct Variant {
     /// the port that is not on the parent's segment announces once per second instead of eight times (C06, workers
     /// 4..7): the BMCA must still run at the pace of the faster port
     pub slow_other_port: bool,
+    /// configured delay-asymmetry of both ports in ns (C09: 0, -2 ms, +1.5 ms, +12.345678 ms by worker index mod 4)
+    pub asym_ns: i64,
 }
 
 impl Variant {
     pub fn from_index(first: u64, prop: &str) -> Variant {
         let alt = (first / 4) % 2 == 1;
         let other_domain = first % 3 == 1;
-        Variant { path_trace: first % 2 == 1, udp: (first / 2) % 2 == 1, swap: alt && prop != "C12" && prop != "C06", p2p: (alt && prop == "C12") || prop == "C14", sdo: if other_domain { 0x1a5 } else { 0 }, domain: if other_domain { 7 } else { 0 }, alt, aml: (prop == "C14" || prop == "C07") && first % 2 == 1, long_timeout: prop == "C14", slow_other_port: prop == "C06" && alt }
+        Variant { path_trace: first % 2 == 1, udp: (first / 2) % 2 == 1, swap: alt && prop != "C12" && prop != "C06" && prop != "C09", p2p: (alt && (prop == "C12" || prop == "C09")) || prop == "C14", sdo: if other_domain { 0x1a5 } else { 0 }, domain: if other_domain { 7 } else { 0 }, alt, aml: (prop == "C14" || prop == "C07") && first % 2 == 1, long_timeout: prop == "C14", slow_other_port: prop == "C06" && alt, asym_ns: if prop == "C09" { [0i64, -2_000_000, 1_500_000, 12_345_678][(first % 4) as usize] } else { 0 } }
     }
     pub fn index(&self) -> u64 {
         self.path_trace as u64 + 2 * self.udp as u64 + 4 * self.alt as u64
     }
     pub fn from_render(v: &Value, prop: &str) -> Variant {
         let alt = v["variant_alt"].as_bool().unwrap_or(false);
-        let mut var = Variant { path_trace: v["path_trace"].as_bool().unwrap_or(false), udp: v["transport"].as_str() == Some("udp-ipv4"), swap: alt && prop != "C12" && prop != "C06", p2p: (alt && prop == "C12") || prop == "C14", sdo: 0, domain: 0, alt, aml: false, long_timeout: prop == "C14", slow_other_port: prop == "C06" && alt };
+        let mut var = Variant { path_trace: v["path_trace"].as_bool().unwrap_or(false), udp: v["transport"].as_str() == Some("udp-ipv4"), swap: alt && prop != "C12" && prop != "C06" && prop != "C09", p2p: (alt && (prop == "C12" || prop == "C09")) || prop == "C14", sdo: 0, domain: 0, alt, aml: false, long_timeout: prop == "C14", slow_other_port: prop == "C06" && alt, asym_ns: 0 };
         // sdoId / domain are a function of the worker index
         let again = Variant::from_index(var.index(), prop);
         var.sdo = again.sdo;
         var.domain = again.domain;
         var.aml = again.aml;
+        var.asym_ns = again.asym_ns;
         var
     }
 }
@@ -522,7 +525,7 @@ impl World {
             sdo = variant.sdo,
             dom = variant.domain,
             lb = if variant.slow_other_port { 0 } else { ANN_LOG },
-            aml = format!("{}{}", if variant.aml { "acceptable-master-list = [\"001b19cc00000002\", \"001b19cc00000007\", \"001b19cc00000021\"]\n" } else { "" }, if variant.long_timeout { "announce-receipt-timeout = 8\n" } else { "" })
+            aml = format!("{}{}{}", if variant.asym_ns != 0 { format!("delay-asymmetry = {}\n", variant.asym_ns) } else { String::new() }, if variant.aml { "acceptable-master-list = [\"001b19cc00000002\", \"001b19cc00000007\", \"001b19cc00000021\"]\n" } else { "" }, if variant.long_timeout { "announce-receipt-timeout = 8\n" } else { "" })
         );
         std::fs::write(dir.join("statime.toml"), cfg).map_err(|e| e.to_string())?;
         let log = std::fs::File::create(dir.join("daemon.log")).map_err(|e| e.to_string())?;
@@ -2069,11 +2072,48 @@ pub fn case_c03(w: &mut World, t: &mut Tape) -> E2eOut {
     let n = t.urange(200, 1500) as usize;
     let me_slave = w.slave_port_id();
     let me_master = PortId { clock: w.own_identity, port: (1 - w.slave_idx) as u16 + 1 };
-    let mut kinds = [0u64; 4];
+    let mut kinds = [0u64; 5];
     let mut sent_bytes = 0usize;
+    let mut laden: Vec<String> = vec![];
     for i in 0..n {
-        let kind = t.weighted(&[4, 3, 2, 3]);
+        let kind = t.weighted(&[80, 60, 40, 60, 2]);
         kinds[kind] += 1;
+        if kind == 4 {
+            // a well-formed Announce of the parent itself, as full of TLVs as the daemon's 1024-byte receive buffer
+            // allows: a long PATH_TRACE, or more small propagating TLVs than any queue inside the daemon holds;
+            // then one BMCA period, and an observation while the daemon holds all that
+            let mut tl = vec![];
+            match t.below(3) {
+                0 => {
+                    let ids = *t.pick(&[8usize, 40, 90, 118]);
+                    let mut v = vec![];
+                    for k in 0..ids {
+                        v.extend_from_slice(&[0x00, 0x1b, 0x19, 0xf0, 0, 0, (k >> 8) as u8, k as u8]);
+                    }
+                    laden.push(format!("PATH_TRACE of {} identities", ids));
+                    tl.push(RTlv { typ: 0x0008, value: v });
+                }
+                1 => {
+                    let cnt = *t.pick(&[10usize, 100, 129, 200, 238]);
+                    let typ = *t.pick(&[0x4000u16, 0x7fff, 0x5a5a]);
+                    laden.push(format!("{} empty TLVs of type {:#06x}", cnt, typ));
+                    for _ in 0..cnt {
+                        tl.push(RTlv { typ, value: vec![] });
+                    }
+                }
+                _ => {
+                    let cnt = *t.pick(&[20usize, 60, 94]);
+                    laden.push(format!("{} TLVs of 6 bytes of mixed propagating types", cnt));
+                    for k in 0..cnt {
+                        tl.push(RTlv { typ: [0x4000u16, 0x0009, 0x7000][k % 3], value: vec![k as u8; 6] });
+                    }
+                }
+            }
+            w.parent_plan.push_back((tl, ANN_MS + 30));
+            w.run_plan(Duration::from_millis(ANN_MS + 20));
+            let _ = w.observe();
+            continue;
+        }
         let mut bytes: Vec<u8> = match kind {
             0 => gen_msg(t).encode(),
             1 => {
@@ -2130,7 +2170,7 @@ pub fn case_c03(w: &mut World, t: &mut Tape) -> E2eOut {
             w.run_until(d);
         }
     }
-    let rendered = json!({"frames": n, "bytes": sent_bytes, "kinds(valid random, mutated, raw bytes, edge values from known identities)": kinds});
+    let rendered = json!({"frames": n, "bytes": sent_bytes, "kinds(valid random, mutated, raw bytes, edge values from known identities, TLV-laden Announce of the parent + observation)": kinds, "laden": laden});
     out.render = rendered.clone();
     // the daemon may have changed its mind about its parent in the meantime; what counts is that it lives
     let probe_src = PortId { clock: [0x00, 0x1b, 0x19, 0xee, 0, 0, 0, 0x78], port: 1 };
@@ -2615,6 +2655,13 @@ pub fn case_c09(w: &mut World, t: &mut Tape) -> E2eOut {
     w.syncs_sent.clear();
     w.dreqs_answered.clear();
     let run_s = t.urange(6, 10);
+    let asym = w.variant.asym_ns as f64;
+    // in half of the cases the slave port's egress is throttled for 1.2-2.5 s (token bucket, about one frame per half
+    // second), so that its requests leave late and some transmit timestamps are not reported in time: whatever the
+    // daemon measures then must still be built from the real departure of the frame
+    let throttle = if t.bool() { Some((t.urange(1000, 3000), t.urange(1200, 2500))) } else { None };
+    let dev = if w.variant.swap { "b0" } else { "a0" };
+    let mut throttled = 0u8;
     let log_mark = std::fs::metadata(w.dir.join("daemon.log")).map(|m| m.len()).unwrap_or(0);
     w.frames_b = before;
     w.keep_frames = true;
@@ -2624,6 +2671,16 @@ pub fn case_c09(w: &mut World, t: &mut Tape) -> E2eOut {
     while t0.elapsed() < Duration::from_secs(run_s) {
         let d = Instant::now() + Duration::from_millis(200);
         w.run_until(d);
+        if let Some((at_ms, for_ms)) = throttle {
+            let e = t0.elapsed().as_millis() as u64;
+            if throttled == 0 && e >= at_ms {
+                throttled = if sh(&format!("tc qdisc replace dev {} root tbf rate 1kbit burst 100 limit 400000", dev)).is_ok() { 1 } else { 3 };
+            } else if throttled == 1 && e >= at_ms + for_ms {
+                // the bucket stays in place, wide open (deleting it would drop whatever is still queued in it)
+                let _ = sh(&format!("tc qdisc change dev {} root tbf rate 1gbit burst 400000 limit 4000000", dev));
+                throttled = 2;
+            }
+        }
         for (at, m) in std::mem::take(&mut w.frames_b) {
             match &m.body {
                 RBody::Sync { .. } => {
@@ -2639,11 +2696,20 @@ pub fn case_c09(w: &mut World, t: &mut Tape) -> E2eOut {
             }
         }
     }
+    if throttled == 1 {
+        let _ = sh(&format!("tc qdisc change dev {} root tbf rate 1gbit burst 400000 limit 4000000", dev));
+    }
+    if throttled == 1 || throttled == 2 {
+        out.label("daemon:slave-egress-throttled");
+    }
     w.keep_frames = false;
     w.emulate_master = false;
     w.gm_offset_ns = 0;
     w.gm_drift_ppm = 0.0;
-    let rendered = json!({"gm_offset_ns": off.to_string(), "gm_drift_ppm": drift, "run_s": run_s, "syncs_sent": w.syncs_sent.len(), "delay_requests_answered": w.dreqs_answered.len()});
+    if w.log_contains_since(log_mark, "Missing send timestamp") {
+        out.label("daemon:transmit-timestamp-late");
+    }
+    let rendered = json!({"gm_offset_ns": off.to_string(), "gm_drift_ppm": drift, "run_s": run_s, "slave_egress_throttled(at ms, for ms)": throttle, "delay_asymmetry_ns": w.variant.asym_ns, "delay_mechanism": if w.variant.p2p { "P2P" } else { "E2E" }, "syncs_sent": w.syncs_sent.len(), "delay_requests_answered": w.dreqs_answered.len()});
     out.render = rendered.clone();
     if !w.alive() {
         out.fail("daemon exited", rendered.to_string());
@@ -2702,7 +2768,7 @@ pub fn case_c09(w: &mut World, t: &mut Tape) -> E2eOut {
                 break;
             }
             let Some(d) = d_at(sy.1 as f64) else { continue };
-            let resid = rso - (d - g_at(sy.1 as f64));
+            let resid = rso + asym - (d - g_at(sy.1 as f64));
             checked += 1;
             if !(-100_000.0..=400_000.0).contains(&resid) {
                 out.fail("daemon: offset measurement is not t2 - t1 of the Sync/Follow_Up exchange it belongs to", format!("raw sync offset {:.0} ns, from the harness's own timestamps {:.0} ns (+ latency 0..300 us, +-100 us for the reading of the daemon's clock): off by {:.0} ns ; Sync seq {} ; {}", rso, d - g_at(sy.1 as f64), resid, sy.0, rendered));
@@ -2716,7 +2782,7 @@ pub fn case_c09(w: &mut World, t: &mut Tape) -> E2eOut {
                 break;
             }
             let Some(d) = d_at(dr.1 as f64) else { continue };
-            let resid = rdo - (d - g_at(dr.1 as f64));
+            let resid = rdo + asym - (d - g_at(dr.1 as f64));
             checked += 1;
             if !(-400_000.0..=100_000.0).contains(&resid) {
                 out.fail("daemon: delay measurement is not t3 - t4 of the Delay_Req/Delay_Resp exchange it belongs to", format!("raw delay offset {:.0} ns, from the harness's own timestamps {:.0} ns (- latency 0..300 us, +-100 us for the reading of the daemon's clock): off by {:.0} ns ; Delay_Req seq {} ; {}", rdo, d - g_at(dr.1 as f64), resid, dr.0, rendered));
@@ -3420,6 +3486,7 @@ pub fn worker_main(args: &[String]) -> i32 {
             o.insert("sdo_id".into(), json!(variant.sdo));
             o.insert("domain".into(), json!(variant.domain));
             o.insert("acceptable_master_list".into(), json!(variant.aml));
+            o.insert("delay_asymmetry_ns".into(), json!(variant.asym_ns));
         }
         let line = json!({
             "index": idx,
@@ -3542,7 +3609,7 @@ pub fn run_part(ctx: &Ctx, rep: &mut Report, n: u64, workers: u64) -> PartSummar
         let _ = c.wait();
     }
     rep.parts.push(json!({"part": "daemon", "cases": cases, "inconclusive": inconclusive, "inconclusive_sample": sample_inconclusive, "failures_not_reproduced_in_3_reruns(not counted)": unconfirmed, "workers": workers, "worker_errors": fatal,
-        "wall_s": t0.elapsed().as_secs_f64(), "what": if ctx.prop == "C01" { "networks of real statime daemons (built from /repo) in private network namespaces: segments are Linux bridges, ports veth pairs, PTP over Ethernet, announce interval 125 ms, virtual system clocks; the harness only starts, cuts, kills and reads observation sockets; real time" } else { "the real statime daemon (built from /repo) as a two-port boundary clock in a private network namespace over veth pairs; workers alternate between PTP over Ethernet and PTP over UDP/IPv4, path trace off and on, parent on port 1 or port 2 (C12: E2E or P2P); announce interval 125 ms, virtual system clock; real time" }}));
+        "wall_s": t0.elapsed().as_secs_f64(), "what": if ctx.prop == "C01" { "networks of real statime daemons (built from /repo) in private network namespaces: segments are Linux bridges, ports veth pairs, PTP over Ethernet, announce interval 125 ms, virtual system clocks; the harness only starts, cuts, kills and reads observation sockets; real time" } else { "the real statime daemon (built from /repo) as a two-port boundary clock in a private network namespace over veth pairs; workers alternate between PTP over Ethernet and PTP over UDP/IPv4, path trace off and on, parent on port 1 or port 2 (C12, C09: E2E or P2P instead; C09: configured delay asymmetry 0 / -2 ms / +1.5 ms / +12.3 ms; C07, C14: acceptable master list on odd workers); announce interval 125 ms, virtual system clock; real time" }}));
     PartSummary { cases, inconclusive, skipped: None }
 }
 
